@@ -68,6 +68,11 @@ func zzvC08Scenario(base, name string, nUploaders int, fromCounts bool) *sched.S
 		AllowKill: true,
 		Setup: func(x *sched.Exec) {
 			vos.Points, vos.Faults = true, false
+			vos.Age = 0
+			if strings.Contains(name, "slow-server-90s") {
+				// every step of a peer may have happened up to the HTTP timeout (2 min) ago
+				vos.Age = 90 * time.Second
+			}
 			vatomic.SharedOnly = func(uintptr) bool { return false }
 			u := zzvNewU(base)
 			r := &zzvC08Run{u: u, start: s0, returned: make([]bool, nUploaders)}
@@ -204,6 +209,7 @@ func zzvC08Scenario(base, name string, nUploaders int, fromCounts bool) *sched.S
 		},
 		Teardown: func(x *sched.Exec) {
 			vhttp.Choices = nil
+			vos.Age = 0
 			x.Scratch.(*zzvC08Run).u.close()
 		},
 	}
@@ -262,7 +268,7 @@ func TestVerifC08(t *testing.T) {
 	res := vrep.New("C08", p)
 	defer res.Guard()
 	base, _ := vrep.Scratch("c08")
-	res.Rule = "E1: all schedules of 2 (thorough: 3) uploader processes at file-system/HTTP-call granularity with kills and server answers {200,400,500,none} as choices, within the stated (preemption, kill, answer-deviation) bounds, each followed by 3 sequential runs against a faithful server; classes = distinct (answers, kills, marker, staged, acknowledgements) outcomes; E3: one uploader x every status 100-599 and a silent server (the seam answers with the client's timeout if the request carries a deadline, records it otherwise), then a second run; foreign *.json files next to a ready report"
+	res.Rule = "E1: all schedules of 2 (thorough: 3) uploader processes at file-system/HTTP-call granularity with kills and server answers {200,400,500,none} as choices, within the stated (preemption, kill, answer-deviation) bounds, each followed by 3 sequential runs against a faithful server; scenario R4 repeats R1 with every file looking 90 s old to stat (a peer waiting on a slow server, below the client's 2 min timeout); classes = distinct (answers, kills, marker, staged, acknowledgements) outcomes; E3: one uploader x every status 100-599 and a silent server (the seam answers with the client's timeout if the request carries a deadline, records it otherwise), then a second run; foreign *.json files next to a ready report"
 	res.Assumptions = []string{"uploader processes are emulated by threads with separate uploader values on one real directory", "a kill stops a process between two hooked calls; deferred clean-up does not run", "no answer = the server did not process the request"}
 	scns := []struct {
 		name   string
@@ -273,6 +279,7 @@ func TestVerifC08(t *testing.T) {
 		{"R1-two-uploaders-ready-report", 2, false, false},
 		{"R2-two-uploaders-from-counter-files", 2, true, false},
 		{"R3-three-uploaders-ready-report", 3, false, true},
+		{"R4-two-uploaders-slow-server-90s", 2, false, false},
 	}
 	if p.Replay != "" {
 		zzvReplayU(p.Replay, func(name string) *sched.Scenario {
